@@ -331,8 +331,20 @@ def clock_sites(ctx, o, eff: Effects):
     for init_q, arg in ((FWD['init'], 'start'), (BWD['init'], 'end')):
         f = prog.func(init_q)
         for n in found.get(init_q, []):
-            conds = []
             par = _parent_of(f.node, n)
+            fcfg = cfg_of(f)
+            cn = fcfg.node_containing(n)
+            conds = list(facts.node_conditions(prog, f, n, ctx.typer, expand=True)) if cn is not None else []
+            if cn is not None and cn.ast is not None:
+                from sa.flow import eval_conditions
+                root = cn.ast.test if isinstance(cn.ast, (ast.If, ast.While)) else cn.ast
+                conds += eval_conditions(root, n) or []
+            flat = [x for t, p in conds for x in facts.split_conj(t, p)]
+            arg_none = any(facts.cond_is(t, p, f"{arg} is None", want=True) or facts.cond_is(t, p, arg, want=False) for t, p in flat)
+            # the argument itself must still be the caller's value where it is tested (no rebinding before the test)
+            if arg_none and len([d for d in flow_of(f).defs_of(arg) if d.kind != 'param' and d.node is not None and cn is not None
+                                 and fcfg.can_reach(d.node, cn) and d.node is not cn]) == 0:
+                continue
             if not (isinstance(par, ast.IfExp) and (match(f"{arg} is not None", par.test) and par.orelse is n or
                                                     match(f"{arg} is None", par.test) and par.body is n)) and \
                     not (isinstance(par, ast.BoolOp) and isinstance(par.op, ast.Or) and par.values[-1] is n):
